@@ -22,12 +22,14 @@ def spec_ids(tbl, trees, D, ids):
             res.append(({i for i, c in zip(ids, cells) if c.lstrip("x") == "T"}, {i for i, c in zip(ids, cells) if c.startswith("x")}))
     return res
 
-def judge_db(ctx, db, root_tbl, model, filters, tally, viol, agree_only=False):
+def judge_db(ctx, db, root_tbl, model, filters, tally, viol, agree_only=False, spec_of=None):
+    """spec_of: filter text -> the text whose reference semantics it has (a to-one relationship compared with null / a key value means its foreign key)"""
     D = rc.enc_db(db)
     trees = []
     for t in filters:
         try:
-            trees.append((t, impl.real_parse_ast(t)))
+            impl.real_parse_ast(t)
+            trees.append((t, impl.real_parse_ast((spec_of or {}).get(t, t))))
         except Exception as e:  # noqa
             viol.append((model, t, None, f"the parser rejects the filter: {type(e).__name__}"))
     ids = [r["id"] for r in db[root_tbl]]
@@ -113,6 +115,20 @@ def run(ctx):
                                      "tags/any(t: t/ps/any(q: q/a gt 0)) or s eq 'a'", "not tags/any(t: t/ps/all(q: q/a gt 0)) and id eq 2",
                                      "tags/any(t: t/ps/any(q: q/kids/any(k: k/x eq 2))) and a eq 2", "o/ps/any(q: q/tags/any(t: t/label eq 'l')) and a gt 0 and id gt 0",
                                      "(tags/any(t: t/ps/any(q: q/a gt 0)) and a gt 0) or (kids/any(k: k/x eq 2) and id gt 1)"], tally, viol)
+        # a to-one relationship ITSELF compared with null or with a key value (either side), alone and combined: it stands for its foreign key
+        #   (o -> o_id, w -> w_id, dept -> dn: the key of d is `number`, not its primary key; w/o -> w/o_id)
+        rel_cmp = {}
+        for applied, spec in (("o eq null", "o_id eq null"), ("o ne null", "o_id ne null"), ("null eq o", "o_id eq null"), ("null ne w", "w_id ne null"), ("o eq 1", "o_id eq 1"), ("3 eq o", "o_id eq 3"),
+                              ("o ne 2", "o_id ne 2"), ("w eq 2", "w_id eq 2"), ("dept eq null", "dn eq null"), ("dept eq 10", "dn eq 10"), ("dept ne 2", "dn ne 2"), ("2 eq dept", "dn eq 2"),
+                              ("w/o eq null", "w/o_id eq null"), ("w/o eq 1", "w/o_id eq 1"), ("o in (1, 3)", "o_id in (1, 3)")):
+            rel_cmp[applied] = spec
+            for wrap_a, wrap_s in (("not ({})", "not ({})"), ("{} and a gt 0", "{} and a gt 0"), ("a eq 2 or {}", "a eq 2 or {}"), ("{} and kids/any(k: k/x eq 2)", "{} and kids/any(k: k/x eq 2)"),
+                                   ("kids/any() and {}", "kids/any() and {}")):
+                rel_cmp[wrap_a.format(applied)] = wrap_s.format(spec)
+        judge_db(ctx, db, "p", "P", list(rel_cmp), tally, viol, spec_of=rel_cmp)
+        judge_db(ctx, db, "k", "K", ["p eq null", "p eq 3", "null ne o", "p/o eq null", "p/o eq 1 or o eq 4", "p/dept eq 10"], tally, viol,
+                 spec_of={"p eq null": "p_id eq null", "p eq 3": "p_id eq 3", "null ne o": "o_id ne null", "p/o eq null": "p/o_id eq null", "p/o eq 1 or o eq 4": "p/o_id eq 1 or o_id eq 4",
+                          "p/dept eq 10": "p/dn eq 10"})
         judge_db(ctx, db, "p", "P", ["o/ps/any(q: q/a gt 0)", "tags/any(t: t/ps/any(q: q/a gt 0))", "kids/any(k: k/x eq 2)", "o/name eq 'x' and w/o/label eq 'l'",
                                      "w/o/label eq 'l' and o/name eq 'x'", "not (o/name eq 'x') or w/o/label eq 'l'"], tally, viol)
     ctx.corr_names.append("relational-plan-models")
